@@ -78,7 +78,7 @@ def case(g, tier, ci):
     if k < 0.12 and subs:
         ops.append({"op": "sq.addSub", "id": "s", "pos": P + 1, "sub": "s", "_errclass": True})         # nested
     elif k < 0.2:
-        ops += [{"op": "sq.new", "id": "w"}, {"op": "sq.setSR", "id": "w", "v": enc(SR * 2)},
+        ops += [{"op": "sq.new", "id": "w"}, {"op": "sq.setSR", "id": "w", "v": enc(SR * 2 if r.random() < 0.5 else SR * (1 + 2 ** -19))},
                 {"op": "sq.addSub", "id": "s", "pos": P + 1, "sub": "w", "_errclass": True}]            # other sample rate
     elif k < 0.26 and subs:
         # element + subsequence mixed in the offered sequence
